@@ -473,3 +473,4 @@ def run(ctx: Context) -> None:
     ctx.isolate(r6_start_once)
     ctx.isolate(c06.r8b_task_is_complete, rule="C02.R7")
     ctx.isolate(r8_release_event_uses_own_time)
+    ctx.isolate(c06.r9_cascade_exemptions, _alias={"C06.R9": "C02.R9", "C06.R11": "C02.R9b"})
